@@ -57,12 +57,102 @@ func SwallowExplains(rc *ref.Case, object, relation, user string, decided bool) 
 	return false
 }
 
+// FindingDedup: the sorted ReadStartingWithUser path used by the non-default strategies merges
+// contextual and stored tuples through OrderedCombinedIterator(ObjectMapper), which keeps only the
+// first tuple per object — before tuples that are invalid for the model or fail their condition are
+// filtered out. When the kept tuple is then filtered, the object is lost although another tuple
+// (same object and relation, the user itself or its typed wildcard) grants it.
+const FindingDedup = "fastpath-dedup-before-filter"
+
+// DedupExplains is the executable deviation model of FindingDedup: the observed decision equals
+// the reference value after dropping a non-empty set of tuples (o, r, u) with u ∈ {subject,
+// subject's typed wildcard} for each of which ANOTHER tuple on the same (o, r) with a user from the
+// same two-element set exists that does not grant (invalid for the model, or condition not True).
+// withSwallow additionally allows swallowable unevaluable tuples (FindingCondSwallowed) in the set.
+func DedupExplains(rc *ref.Case, object, relation, user string, decided bool, withSwallow bool) bool {
+	if ref.IsUserset(user) {
+		return false
+	}
+	ut, _ := ref.SplitObject(user)
+	match := func(u string) bool { return u == user || u == ut+":*" }
+	isValid := map[*openfgav1.TupleKey]bool{}
+	for _, t := range rc.ValidTuples() {
+		isValid[t] = true
+	}
+	var cand []*openfgav1.TupleKey
+	for _, t := range rc.ValidTuples() {
+		if !match(t.GetUser()) {
+			continue
+		}
+		for _, o := range rc.Tuples {
+			if o == t || o.GetObject() != t.GetObject() || o.GetRelation() != t.GetRelation() || !match(o.GetUser()) {
+				continue
+			}
+			if !isValid[o] || rc.CondValue(o) != ref.T {
+				cand = append(cand, t)
+				break
+			}
+		}
+	}
+	if len(cand) == 0 {
+		return false
+	}
+	if withSwallow {
+		for _, t := range rc.Unevaluable() {
+			dup := false
+			for _, c := range cand {
+				if c == t {
+					dup = true
+				}
+			}
+			if !dup {
+				cand = append(cand, t)
+			}
+		}
+	}
+	if len(cand) > 10 {
+		cand = cand[:10]
+	}
+	want := ref.F
+	if decided {
+		want = ref.T
+	}
+	for mask := 1; mask < 1<<len(cand); mask++ {
+		var drop []*openfgav1.TupleKey
+		for i, t := range cand {
+			if mask&(1<<i) != 0 {
+				drop = append(drop, t)
+			}
+		}
+		if rc.Dropping(drop).Eval(user).K(object, relation) == want {
+			return true
+		}
+	}
+	return false
+}
+
+// FindingSubtractCycle: a resolution cycle met while evaluating the subtracted branch of an
+// exclusion makes the exclusion false (deliberate in both engines' exclusion reducers), whereas under
+// least-fixpoint semantics a cyclic branch is simply false and the exclusion holds.
+const FindingSubtractCycle = "cycle-in-subtract-denies"
+
 // ClassifyCheck attributes a disagreement between Check and the reference to a known finding when —
 // and only when — the finding's executable deviation model reproduces the observed answer and its
 // deviation rule fired on this very request. prefix is the property id. Returns "" otherwise.
-func ClassifyCheck(prefix string, rc *ref.Case, rq Request, k ref.Tri, o drive.Outcome) string {
-	if o.Err == nil && k == ref.E && SwallowExplains(rc, rq.Object, rq.Relation, rq.User, o.Allowed) {
+func ClassifyCheck(prefix string, rc *ref.Case, rq Request, k ref.Tri, o drive.Outcome, mode drive.Mode) string {
+	if o.Err != nil {
+		return ""
+	}
+	if k == ref.E && SwallowExplains(rc, rq.Object, rq.Relation, rq.User, o.Allowed) {
 		return prefix + "-" + FindingCondSwallowed
+	}
+	if mode != "default" && DedupExplains(rc, rq.Object, rq.Relation, rq.User, o.Allowed, true) {
+		return prefix + "-" + FindingDedup
+	}
+	if k == ref.T && !o.Allowed {
+		if v, fired, ok := rc.CycleDeviation(rq.User, rq.Object, rq.Relation); ok && fired && !v {
+			return prefix + "-" + FindingSubtractCycle
+		}
 	}
 	return ""
 }
